@@ -52,6 +52,9 @@ fn maps() -> Vec<Val> {
         Val::Map(vec![(q("a"), n(4.0)), (n(1.0), s("one")), (Val::Null, s("nil"))]),
         Val::Map(vec![(s("a"), Val::Map(vec![(s("x"), Val::Map(vec![(s("p"), n(1.0)), (s("q"), n(2.0))]))]))]),
         Val::Map(vec![(s("a"), Val::Map(vec![(s("x"), Val::Map(vec![(s("q"), n(3.0)), (s("r"), n(4.0))])), (s("y"), n(0.0))]))]),
+        // the same key names at several levels, map-valued keys next to scalar ones
+        Val::Map(vec![(s("b"), Val::Map(vec![(s("x"), n(5.0)), (s("b"), Val::Map(vec![(s("x"), n(6.0))]))])), (s("a"), n(1.0))]),
+        Val::Map(vec![(s("x"), Val::Map(vec![(s("a"), Val::Map(vec![(s("x"), n(8.0))]))])), (s("zz"), n(0.0))]),
     ]
 }
 
@@ -141,6 +144,12 @@ fn calls(ctx: &Ctx) -> Vec<Call> {
                 push(format!("inspect(map.set({}, {}, {}, V))", msrc, k.src(), k2.src()), None, exp(map_set(m, &[k.clone(), k2.clone()], &s("V"))), "map.set");
                 if let Ok(Some(r)) = deep_remove(m, &[k.clone(), k2.clone()]) {
                     push(format!("inspect(map.deep-remove({}, {}, {}))", msrc, k.src(), k2.src()), None, Some(r.inspect()), "map.deep-remove");
+                }
+                for k3 in &keys[..4] {
+                    // three-level paths: gaps (missing or scalar keys) in the middle of the path
+                    push(format!("inspect(map.set({}, {}, {}, {}, V))", msrc, k.src(), k2.src(), k3.src()), None, exp(map_set(m, &[k.clone(), k2.clone(), k3.clone()], &s("V"))), "map.set");
+                    push(format!("inspect(map.get({}, {}, {}, {}))", msrc, k.src(), k2.src(), k3.src()), None, exp(map_get(m, &[k.clone(), k2.clone(), k3.clone()])), "map.get");
+                    push(format!("inspect(map.has-key({}, {}, {}, {}))", msrc, k.src(), k2.src(), k3.src()), None, exp(map_has_key(m, &[k.clone(), k2.clone(), k3.clone()])), "map.has-key");
                 }
                 push(format!("inspect(map-remove({}, {}, {}))", msrc, k.src(), k2.src()), Some(format!("inspect(map.remove({}, {}, {}))", msrc, k.src(), k2.src())), exp(map_remove(m, &[k.clone(), k2.clone()])), "map-remove");
             }
